@@ -73,10 +73,38 @@ class Executor:
         self.module_stack = [finfo.module]
         self.qual_stack = [finfo.qual]
         self.loop_ordinal = 0
+        self.fentry = None
+        self.case_ghost = {}
+        self._loop_ids = {}
+        k = 0
+        for n in ast.walk(ast.Module(body=list(finfo.body), type_ignores=[])):
+            pass
+        for n in self._loops_in_order(finfo.body):
+            self._loop_ids[id(n)] = k
+            k += 1
         self.cur_case = ""
         self.yield_hook = None
         self.point_hook = None          # every-point invariant (C17)
         self.inlined = set()
+
+    def _loops_in_order(self, stmts):
+        out = []
+
+        def visit(n):
+            if isinstance(n, (ast.While, ast.For)):
+                out.append(n)
+            for ch in ast.iter_child_nodes(n):
+                if isinstance(ch, (ast.FunctionDef, ast.Lambda, ast.ClassDef)):
+                    continue
+                visit(ch)
+        for s in stmts:
+            visit(s)
+        return out
+
+    def static_loop_ordinal(self, node):
+        if self.depth > 0:
+            return -1
+        return self._loop_ids.get(id(node), -1)
 
     # ---- small helpers ----------------------------------------------------------------------------
     def res(self, st, v):
@@ -782,6 +810,9 @@ class Executor:
                             raise Unsupported("property %s.%s" % (o.cls, attr))
                         return [self.res(st, self.lift(ca, attr))]
                     raise Unsupported("unknown attribute %s.%s" % (o.cls, attr))
+                aq = "abstract:%s.%s" % (o.cls, attr)
+                if aq in self.env.abstract_registry():
+                    return [self.res(st, FuncV(aq, v))]
                 return [self.res(st, StubV("%s.%s" % (o.cls, attr), v))]
             if isinstance(o, HList):
                 return [self.res(st, StubV("list." + attr, v))]
@@ -1083,7 +1114,19 @@ class Executor:
     def call_func(self, fv, st, args, kwargs, node):
         finfo = self.env.repo.funcs.get(fv.qual)
         if finfo is None:
-            raise Unsupported("no source for %s" % fv.qual)
+            con = self.env.abstract_registry().get(fv.qual)
+            if con is None:
+                raise Unsupported("no source for %s" % fv.qual)
+            vals = ([fv.self_v] if fv.self_v is not None else []) + list(args)
+            loc = dict(zip(con.params, vals))
+            for k, v in kwargs.items():
+                loc[k] = v
+            for p, d in getattr(con, "defaults", {}).items():
+                loc.setdefault(p, d)
+
+            class _FI:
+                qual = fv.qual
+            return self.env.apply_contract(self, st, con, _FI, loc, node)
         con = self.env.contract_for(fv.qual, self, st, fv, args, kwargs)
         loc = self.bind_params(finfo, fv.self_v, args, kwargs, st)
         if con is not None and not (self.contract is not None and con is self.contract and False):
